@@ -327,6 +327,11 @@ def classify(h, r):
         if re.search(r"C\d\d/", d):
             continue
         cat = c.get("category")
+        if d.startswith("NaN on "):
+            # CBMC's --nan-check flags every float operation that CAN produce NaN (0.0/0.0, inf-inf). Producing a
+            # NaN is defined IEEE-754 behaviour, not a panic; what the code does with it is covered by the
+            # named obligations. Counting it as a failed "no panic" obligation was a false alarm (DESIGN 0.5).
+            continue
         if cat in ("unwind", "unreachable", "unsupported_construct", "reachability_check"):
             if cat == "unsupported_construct" and c["status"].upper() == "FAILURE":
                 other_fail_else.append(c)
@@ -372,8 +377,13 @@ def classify(h, r):
         res["state"] = "vacuous"
         res["detail"].append(f"vacuity guard tripped: {vac}")
     elif hs not in ("success",):
-        res["state"] = "undecided"
-        res["detail"].append(f"harness status {r.get('status')} without a failing named obligation")
+        nan_only = [c for c in checks if c.get("description", "").startswith("NaN on ") and c["status"].upper() == "FAILURE"]
+        others = [c for c in checks if c["status"].upper() == "FAILURE" and not c.get("description", "").startswith("NaN on ")]
+        if nan_only and not others:
+            res["detail"].append(f"{len(nan_only)} NaN-producing float operation(s) flagged by CBMC's --nan-check (defined IEEE behaviour, not a panic): ignored")
+        else:
+            res["state"] = "undecided"
+            res["detail"].append(f"harness status {r.get('status')} without a failing named obligation")
     if h["panic"] == "violation" and res["state"] == "ok":
         nm = f"{h['property']}/{h['name']}/no_panic"
         res["obligations"].append({"name": nm, "status": "discharged", "harness": h["name"], "kind": "safety",
